@@ -1,0 +1,16 @@
+//go:build verif
+
+package core
+
+import "github.com/nspcc-dev/neo-go/pkg/core/storage"
+
+// This file is a test seam for the external verification harness (/verif, property C02).
+// It is compiled only with `-tags verif` and adds no behaviour to normal builds.
+
+// VerifWriteCache returns the blockchain's shared write cache (the
+// MemCachedStore between block processing and the persistent store), for the
+// read-lock seams of package storage (VerifRLock, VerifWriterPending,
+// VerifPendingChanges). The harness must not write to it.
+func (bc *Blockchain) VerifWriteCache() *storage.MemCachedStore {
+	return bc.dao.Store
+}
